@@ -464,7 +464,7 @@ func (p *c03) runOrder(r *core.CaseResult, c *c03case, sql string) {
 
 func (p *c03) Meta() core.Meta {
 	return core.Meta{
-		Rule: "one case per query = (grouping set in {none, g, h, (g,h), (h,g), m, (m,h), n, (n,h)} - n has more than 8 distinct values in the two larger tables, - m holds values of mixed kinds that print alike) x (select list: keys+COUNT(*) | SUM on two columns | the same functions on two nested columns with the same final name | MIN/MAX on two columns | AVG,COUNT(*),COUNT(col) | keys+* | aggregates only | same call twice | the same functions on two columns whose names differ only in case) x (5 WHEREs incl. always-false) x (4 HAVINGs) (a subset also with LIMIT 0/1/2 on the result), each run on every table of <= 3 (thorough 4) rows over 6 archetypes and one table of 37 rows with NULL group keys and NULL aggregate inputs, compared as a sequence with the reference group-by; plus map-order cases: the grouped queries on a table subset under every Go-map iteration order within deviation bound 1 (thorough 2). non-trivial = reference has >= 2 groups (or a whole-table aggregate over >= 2 rows); for map-order cases: more than one iteration order was executed; one changed-between-executions case (7 queries x 5 rows x 8 in-place edits between two executions of one Query: the second execution equals a fresh Query); for reference-checked queries without LIMIT the clause functions ExecWhere / ExecGroupBy / ExecSelect called one after the other equal Exec",
+		Rule: "one case per query = (grouping set in {none, g, h, (g,h), (h,g), m, (m,h), n, (n,h)} - n has more than 8 distinct values in the two larger tables, - m holds values of mixed kinds that print alike) x (select list: keys+COUNT(*) | SUM on two columns | the same functions on two nested columns with the same final name | MIN/MAX on two columns | AVG,COUNT(*),COUNT(col) | keys+* | aggregates only | same call twice | the same functions on two columns whose names differ only in case) x (5 WHEREs incl. always-false) x (4 HAVINGs) (a subset also with LIMIT 0/1/2 on the result), each run on every table of <= 3 (thorough 4) rows over 6 archetypes and one table of 37 rows with NULL group keys and NULL aggregate inputs, compared as a sequence with the reference group-by; plus map-order cases: the grouped queries on a table subset under every Go-map iteration order within deviation bound 1 (thorough 2). non-trivial = reference has >= 2 groups (or a whole-table aggregate over >= 2 rows); for map-order cases: more than one iteration order was executed; one changed-between-executions case (7 queries x 5 rows x 8 in-place edits between two executions of one Query: the second execution equals a fresh Query); for reference-checked queries without LIMIT the clause functions ExecWhere / ExecGroupBy / ExecSelect called one after the other equal Exec; one failed-then-repaired case (an execution fails in an aggregate on v = \"n/a\" in row k, the caller repairs the row, the same Query again: 5 queries x 4 rows x 4 repairs against a fresh Query)",
 		Assumptions: []string{
 			"reference: SUM/MIN/MAX ignore NULL members and are NULL without non-NULL members; AVG and COUNT(col) only on NULL-free columns (abstains otherwise); HAVING only over NULL-free aggregate values",
 			"aggregate select items are always aliased (the property fixes no column name for COUNT(*))",
